@@ -20,6 +20,12 @@ STM = 'src/pharmpy/model/statements.py:'
 NPROC = 16
 ALSO_CAP = 300   # length of the `also` lists (every failing case of a clause, tools/BOUNDED_GUIDE.md)
 
+
+def _also_list(case, cases):
+    """the `also` list: the failing cases in enumeration order, capped; the reported (smallest) case is always in it"""
+    cases = cases[:ALSO_CAP]
+    return cases if case in cases else [case] + cases[:ALSO_CAP - 1]
+
 # --------------------------------------------------------------------------------------------------
 # lazy pharmpy access (workers import once)
 # --------------------------------------------------------------------------------------------------
@@ -823,7 +829,8 @@ def bounded_dataflow(tier):
                           'case': as_case(prog, fid, clause),
                           'replay_fn': 'bounded_dataflow_replay',
                           # every failing program of the clause (tools/BOUNDED_GUIDE.md, `also`)
-                          'also': [as_case(q, fid, clause) for q in also.get((fid, clause), [])[:ALSO_CAP]]})
+                          'also': _also_list(as_case(prog, fid, clause),
+                                             [as_case(q, fid, clause) for q in also.get((fid, clause), [])])})
     bound = ' | '.join(f"{f['name']} ({per_family.get(f['name'], 0)} programs): {f['bound']}" for f in fams)
     return {'cases': cases, 'nontrivial': nontrivial, 'bound': bound, 'samples': samples, 'fails': out_fails}
 
@@ -1013,7 +1020,19 @@ def _is_zero(e):
     if e == 0:
         return True
     import sympy
-    return sympy.simplify(sympy.sympify(e._sympy_())) == 0
+    from sympy.core.function import AppliedUndef
+    s = sympy.sympify(e._sympy_())
+    # a point at which the expression has a non-zero value shows that it is not identically zero (this only
+    # spares the slow simplify for expressions that do differ; everything else is decided by simplify)
+    try:
+        atoms = sorted(s.atoms(sympy.Symbol) | s.atoms(AppliedUndef), key=str)
+        point = {a: sympy.Rational(sympy.prime(k + 2), 1) + sympy.Rational(1, 3) for k, a in enumerate(atoms)}
+        v = s.xreplace(point)
+        if v.is_Rational and v != 0:
+            return False
+    except Exception:
+        pass
+    return sympy.simplify(s) == 0
 
 
 def _ref_rhs(ref, nm):
@@ -1389,7 +1408,14 @@ def _check_cs_nl_case(case):
     except Exception as e:
         add(CS + 'to_dict', CC_DICT, f'nonlinear rates: round trip raised {_exc(e)}')
 
-    for label, m in _nl_maps(ref):
+    maps = _nl_maps(ref)
+    # flows and compartments are compared after every substitution; the (expensive) consistency clauses of matrix /
+    # amounts / equations after the substitutions that change several things at once, after the str-keyed ones and
+    # after one single-key substitution that rotates with the style - after every one when the case says 'full'
+    single = [i for i, (label, _) in enumerate(maps) if label.startswith('{') and label.count(':') == 1]
+    rotating = single[case['style'] % len(single)] if single else None
+    for i, (label, m) in enumerate(maps):
+        consistency = case.get('full') or i == rotating or i not in single
         want = _nl_subs_ref(plain, m)
         try:
             sub = cs.subs(m)
@@ -1403,7 +1429,8 @@ def _check_cs_nl_case(case):
         d = _nl_comp_diff(obs, want, names)
         if d:
             add(CS + 'subs', CC_SUBS_EXPR_COMP, f'subs({label}): {d}')
-        _check_system(sub, want, add, f'after subs({label}): ')
+        if consistency:
+            _check_system(sub, want, add, f'after subs({label}): ')
     obs = _nl_observe(cs, names)
     d = _nl_flow_diff(obs, plain, names) or _nl_comp_diff(obs, plain, names)
     if d:
@@ -1569,7 +1596,7 @@ def _cs_cases(n, inputs_all=True):
 
 def _cs_size(case):
     return (case['n'], len(case['edges']) + len(case['outs']) + (case['input'] is not None),
-            repr(sorted(case.items())))
+            case.get('style') is not None, repr(sorted(case.items())))
 
 
 def _with_tocs(case):
@@ -1601,7 +1628,7 @@ def _nl_cases(tier):
     for n in (1, 2):
         for c in _cs_cases(n):
             for s in range(len(NL_STYLES)):
-                yield dict(c, style=s)
+                yield dict(c, style=s, **({} if tier == 'quick' else {'full': True}))
     for c in _cs_cases(3, inputs_all=False):
         k = len(c['edges']) + len(c['outs'])
         if c['dose'] != k % 3:
@@ -1612,7 +1639,7 @@ def _nl_cases(tier):
                 yield dict(c, style=m % len(NL_STYLES))
         else:
             for s in range(len(NL_STYLES)):
-                yield dict(c, style=s)
+                yield dict(c, style=s, full=True)
 
 
 def bounded_compartmental(tier):
@@ -1632,14 +1659,16 @@ def bounded_compartmental(tier):
              'subs with every single amount function A_c(t) -> A_cX(t), all of them at once, every compound part of a '
              'rate (CL/V, VM/(KM + A(t)), IC + A(t)) alone and all at once, every whole rate, str keys, a mixture with '
              'the dose/lag/bioavailability/input symbols, and symbols replaced by products: flows equal '
-             'old.get_flow(a, b).subs(m), compartments substituted, matrix/amounts/eqs consistent afterwards')
+             'old.get_flow(a, b).subs(m), compartments substituted, matrix/amounts/eqs consistent afterwards (after '
+             'the multi-key and str-keyed substitutions and one rotating single-key substitution)')
     if tier != 'quick':
         cases += [(c, True) for c in _cs_cases(3) if not (c['input'] in (None, (c['dose'] + 1) % 3) and _with_tocs(c))]
         cases += [(c, False) for c in _cs_cases(4, inputs_all=False) if len(c['edges']) <= 4 and len(c['outs']) <= 1]
         bound += (' | thorough: n=3 with the input on any compartment and to_compartmental_system everywhere; '
                   '4 compartments (+X4) with <=4 flows, <=1 output flow, the input on none or on the compartment '
                   'after the dose compartment, without to_compartmental_system; nonlinear rates: n=3 in every '
-                  'style, input on none or on the compartment after the dose compartment')
+                  'style, input on none or on the compartment after the dose compartment, '
+                  'matrix/amounts/eqs consistency after every substitution')
     cases += nl
     indexed = [(i, c, w) for i, (c, w) in enumerate(cases)]
     chunks = [indexed[i::NPROC * 8] for i in range(NPROC * 8)]
@@ -1663,8 +1692,9 @@ def bounded_compartmental(tier):
                           'case': dict(case, fid=fid, clause=clause),
                           'replay_fn': 'bounded_compartmental_replay',
                           # every failing case of the clause in enumeration order (tools/BOUNDED_GUIDE.md, `also`)
-                          'also': [dict(c, fid=fid, clause=clause)
-                                   for _, c in sorted(also.get((fid, clause), []), key=lambda p: p[0])[:ALSO_CAP]]})
+                          'also': _also_list(dict(case, fid=fid, clause=clause),
+                                             [dict(c, fid=fid, clause=clause) for _, c in
+                                              sorted(also.get((fid, clause), []), key=lambda p: p[0])])})
     samples = [repr(cases[i][0]) for i in (5, len(cases) // 2, len(cases) - 1)]
     return {'cases': total, 'nontrivial': nontrivial, 'bound': bound, 'samples': samples, 'fails': out_fails}
 
